@@ -368,6 +368,31 @@ func TestVerifC05(t *testing.T) {
 			t.Fatalf("self-test: oracle did not flag a partial transaction (got %q)", sig)
 		}
 	}
+	if os.Getenv("VERIF_RACE") == "1" {
+		// Free-running pass under the race detector: the same bodies, real goroutines, plain
+		// primitives (the cooperative scheduler's hand-offs would hide unsynchronised accesses).
+		// This is SAMPLING of schedules, not model checking: it only contributes the absence of
+		// reported data races (the runner turns a race report into a violation).
+		iters := vx.Pick(r, 60, 400)
+		n := 0
+		for _, sc := range scs {
+			for i := 0; i < iters && !r.Expired(); i++ {
+				obs := &c05Obs{commitCall: map[string]int{}, commitRet: map[string]int{}, appendErr: map[string]string{}}
+				c05Body(sc, obs)()
+				os.RemoveAll(obs.dir)
+				n++
+				if sig, msg := c05Check(sc, obs); sig != "" && sig != "partial-visible-behind-uncommitted-sample-in-same-series" {
+					r.Violation("free-running/"+sig, fmt.Sprintf("scenario %s (free-running): %s", sc.Name, msg), map[string]any{"scenario": sc.Name, "free_running": true})
+				}
+			}
+		}
+		r.Count("race_pass_iterations", n)
+		r.Count("states", 1)
+		r.Count("transitions", 1)
+		r.Count("traces_validated_against_impl", 0)
+		r.Sample(map[string]any{"race_pass": "free-running iterations of every scenario under -race", "iterations": n})
+		return
+	}
 	bound := vx.Pick(r, 2, 3)
 	type agg struct{ execs, points int64 }
 	total := agg{}
